@@ -1610,6 +1610,8 @@ class Engine:
     def instantiate(self, st, c, pos, kw, fx):
         if c.info is None:
             return self.models.builtin_class(self, st, c, pos, kw, fx)
+        if c.name in CLS.ids and CLS.is_sub(c.name, "BaseException"):
+            return [Res("ok", st, PExc(c.name, None, pos))]        # exception classes of the repository
         qual = c.info.qual
         con = self.contracts.get(("new", qual))
         if con is not None:
